@@ -31,6 +31,9 @@ def gen_cases(tier, seed):
     n = 14 if tier == "quick" else 160
     specs = meshzoo.gen_mesh_specs(rng, n, max_sites=300 if tier == "quick" else 1200)
     cases = [{"mesh": s, "seed": int(rng.integers(1 << 30)), "cost": 1} for s in specs]
+    for j, c_ in enumerate(cases):
+        if j % 4 == 1:
+            c_["via_hdf5"] = True  # the mesh is written to a file and read back before the operators are built on it
     for (nx_, ny_, hy_) in [(3, 5, 0.75), (5, 8, 0.75), (11, 8, 0.75), (2, 2, float(np.sqrt(3) / 2)), (2, 11, float(np.sqrt(3) / 2)), (4, 4, 0.75)]:
         # very regular lattices: on some of them the LU factor of the (singular) Neumann Laplacian is EXACTLY singular and the
         # container refuses; whatever it does, the operators it holds are the operators of the mesh
@@ -160,6 +163,23 @@ def run_case(spec):
     V = []
     C = {}
     worst = {}
+    if spec.get("via_hdf5"):
+        import os
+        import shutil
+        import tempfile
+
+        import h5py
+        from tdgl.finite_volume.mesh import Mesh
+
+        tmpd_ = tempfile.mkdtemp(prefix="vt_c03_")
+        try:
+            with h5py.File(os.path.join(tmpd_, "mesh.h5"), "w") as f_:
+                mesh.to_hdf5(f_.create_group("mesh"))
+            with h5py.File(os.path.join(tmpd_, "mesh.h5"), "r") as f_:
+                mesh = Mesh.from_hdf5(f_["mesh"])
+        finally:
+            shutil.rmtree(tmpd_, ignore_errors=True)
+        C["meshes_read_back_from_a_file"] = 1
 
     def viol(kind, detail):
         V.append({"kind": kind, "mechanism": kind, "detail": detail})
@@ -324,6 +344,23 @@ def run_case(spec):
                 Lr2 = fv.laplacian_fast(n, em.edges, em.edge_lengths, em.dual_edge_lengths, a, em.directions, A2)
                 if note("ref_entrywise", fv.max_abs_diff(sp.csr_matrix(live.psi_laplacian), Lr2), 1e-11 * abs(Lr2).max()):
                     viol("live_covariant_laplacian_ne_reference", {"after": "localised change of the potential"})
+        # the caller keeps ONE array and changes it in place between the calls (halved, then set to zero): the operators are
+        # those of the values handed over at each call; at zero they are the plain operators (L = div grad again)
+        buf = rng.normal(size=(m, 2)) * 1.5
+        live.set_link_exponents(buf)
+        for how_ in ("halved in place", "zeroed in place"):
+            if how_ == "halved in place":
+                buf *= 0.5
+            else:
+                buf[:] = 0.0
+            live.set_link_exponents(buf)
+            Lb_ref = fv.laplacian_fast(n, em.edges, em.edge_lengths, em.dual_edge_lengths, a, em.directions, buf)
+            Gb_ref = fv.gradient_fast(n, em.edges, em.edge_lengths, em.directions, buf)
+            C["same_array_changed_in_place_checks"] = C.get("same_array_changed_in_place_checks", 0) + 1
+            if note("ref_entrywise", fv.max_abs_diff(sp.csr_matrix(live.psi_laplacian), Lb_ref), 1e-11 * abs(Lb_ref).max()):
+                viol("live_covariant_laplacian_ne_reference", {"after": "the caller's array was " + how_})
+            if note("ref_entrywise", fv.max_abs_diff(sp.csr_matrix(live.psi_gradient), Gb_ref), 1e-11 * abs(Gb_ref).max()):
+                viol("live_covariant_gradient_ne_reference", {"after": "the caller's array was " + how_})
     except RuntimeError as exc:
         if "exactly singular" not in str(exc):
             raise
